@@ -183,8 +183,22 @@ static char g_curop[32] = "none"; static char g_curargs[160] = ""; static int g_
 static volatile long *g_progress;     /* shared with parent */
 
 /* per-call callback log */
-static struct { int esi; unsigned size; int ret; int ses; } g_cbl[MAXCB];
+static struct { int esi; unsigned size; int ret; int ses; int own; } g_cbl[MAXCB];
 static int g_ncbl;
+/* "oncb S N": the next N command lines (other sessions) are executed from inside the next decoded-source-symbol
+ * callback of session S (re-entrant use of the library); if no callback fires they run when the next command
+ * of another session, the release of S or the end of the execution comes up.  Per-session order never changes. */
+#define MAXDEFER 64
+static char *g_defer[MAXDEFER]; static int g_ndefer, g_defer_take, g_defer_ses = -1, g_defer_nested;
+static void run_line(char *line);
+static void flush_deferred(void)
+{
+	if (g_defer_ses < 0) return;
+	char *loc[MAXDEFER]; int n = g_ndefer;
+	memcpy(loc, g_defer, sizeof loc);
+	g_defer_ses = -1; g_ndefer = 0; g_defer_take = 0;
+	for (int i = 0; i < n; i++) { run_line(loc[i]); free(loc[i]); }
+}
 /* H captured by the pchk_done hook */
 static int **g_hookH; static int *g_hookHn; static int g_hooknH; static int g_hook_have;
 static long g_hook_seed_events;
@@ -284,7 +298,16 @@ static void *cb_src(void *ctx, UINT32 size, UINT32 esi)
 			kind = 1;
 		}
 	}
-	if (g_ncbl < MAXCB) { g_cbl[g_ncbl].esi = (int)esi; g_cbl[g_ncbl].size = size; g_cbl[g_ncbl].ret = kind; g_cbl[g_ncbl].ses = (int)(s - S); g_ncbl++; }
+	if (g_ncbl < MAXCB) { g_cbl[g_ncbl].esi = (int)esi; g_cbl[g_ncbl].size = size; g_cbl[g_ncbl].ret = kind; g_cbl[g_ncbl].ses = (int)(s - S); g_cbl[g_ncbl].own = g_cur_ses; g_ncbl++; }
+	if (g_defer_ses == (int)(s - S) && g_ndefer == g_defer_take) {
+		/* re-entrant use: the deferred calls on OTHER sessions are made from inside this callback */
+		int cs = g_cur_ses; long la = g_lib_allocs; char op[sizeof g_curop], ar[sizeof g_curargs]; int cc = g_curcodec;
+		memcpy(op, g_curop, sizeof op); memcpy(ar, g_curargs, sizeof ar);
+		g_defer_nested++;
+		flush_deferred();
+		g_cur_ses = cs; g_lib_allocs = la; g_curcodec = cc;
+		memcpy(g_curop, op, sizeof op); memcpy(g_curargs, ar, sizeof ar);
+	}
 	g_in_lib = save;
 	return ret;
 }
@@ -359,10 +382,15 @@ static void emit_itproj(dses_t *s)
 static void emit_common(dses_t *s, int sid, int st)
 {
 	jb_printf(",\"st\":%d,\"cb\":[", st);
-	for (int i = 0; i < g_ncbl; i++)
-		jb_printf("%s[%d,%u,%d,%d]", i ? "," : "", g_cbl[i].esi, g_cbl[i].size, g_cbl[i].ret, g_cbl[i].ses);
+	/* callbacks that fired during this session's library call (with re-entrant use, the calls nested in a
+	 * callback print their own) */
+	int keep = 0, first = 1;
+	for (int i = 0; i < g_ncbl; i++) {
+		if (g_cbl[i].own == sid) { jb_printf("%s[%d,%u,%d,%d]", first ? "" : ",", g_cbl[i].esi, g_cbl[i].size, g_cbl[i].ret, g_cbl[i].ses); first = 0; }
+		else g_cbl[keep++] = g_cbl[i];
+	}
 	jb_printf("],\"app_ok\":%d,\"ff\":%ld,\"live\":%ld", s ? app_ok(s) : 1, g_foreign_free, live_for(sid));
-	g_ncbl = 0;
+	g_ncbl = keep;
 }
 
 static void sess_free_buffers(dses_t *s)
@@ -621,8 +649,10 @@ static void run_line(char *line)
 	if (!strcmp(op, "create")) {
 		memset(s, 0, sizeof *s);
 		s->used = 1; s->codec = (int)AI(1); s->role = (na > 2 && !strcmp(a[2], "enc")) ? 1 : 2;
+		/* "both": an OF_ENCODER_AND_DECODER instance, used in this execution in the role given by a[2] */
+		int both = (na > 3 && !strcmp(a[3], "both"));
 		LIB_ENTER(sid);
-		of_status_t st = of_create_codec_instance(&s->ses, (of_codec_id_t)s->codec, s->role == 1 ? OF_ENCODER : OF_DECODER, 0);
+		of_status_t st = of_create_codec_instance(&s->ses, (of_codec_id_t)s->codec, both ? OF_ENCODER_AND_DECODER : s->role == 1 ? OF_ENCODER : OF_DECODER, 0);
 		LIB_LEAVE();
 		jb_printf("{\"e\":\"Create\",\"x\":%ld,\"s\":%d,\"codec\":%d,\"role\":\"%s\",\"null\":%d", g_exec, sid, s->codec, s->role == 1 ? "enc" : "dec", s->ses == NULL);
 		if (s->ses && st == OF_STATUS_OK) {
@@ -700,7 +730,14 @@ static void run_line(char *line)
 		emit_itproj(s);
 		free(tab); free(copy); free(lst);
 		emit_common(s, sid, st); jb_printf("}\n"); jb_flush();
-	} else if (!strcmp(op, "finish")) {
+	} else if (!strcmp(op, "finish") || !strcmp(op, "refinish")) {
+		if (!strcmp(op, "refinish")) {
+			/* an application that finishes again once decoding is complete (idempotence); nothing is called otherwise */
+			LIB_ENTER(sid);
+			int c = of_is_decoding_complete(s->ses) ? 1 : 0;
+			LIB_LEAVE();
+			if (!c) return;
+		}
 		g_ml_nperm = g_ml_npiv = g_ml_have_simpl = g_ml_fail = 0;
 		LIB_ENTER(sid);
 		of_status_t st = of_finish_decoding(s->ses);
@@ -837,14 +874,28 @@ int main(int argc, char **argv)
 			alarm(timeout_s);
 			for (; i < nl; i++) {
 				if (!strncmp(lines[i], "reset", 5)) {
+					flush_deferred();
 					/* end of an execution: everything the driver still holds is dropped */
 					for (int s = 0; s < MAXS; s++) if (S[s].used && !S[s].released && S[s].ses) cmd_release(s);
-					jb_printf("{\"e\":\"Reset\",\"x\":%ld}\n", g_exec); jb_flush();
+					jb_printf("{\"e\":\"Reset\",\"x\":%ld,\"nested\":%d}\n", g_exec, g_defer_nested); jb_flush();
+					g_defer_nested = 0;
 					g_exec++; g_progress[1] = g_exec; g_progress[0] = (long)i + 1;
 					g_foreign_free = 0; g_nblk = 0; memset(S, 0, sizeof S);
 					if (fork_each) _exit(0);   /* next execution starts from the pristine parent image */
 					alarm(timeout_s);
 					continue;
+				}
+				{
+					char op0[32] = ""; int sid0 = -1;
+					sscanf(lines[i], "%31s %d", op0, &sid0);
+					if (!strcmp(op0, "oncb")) {
+						int n0 = 0; sscanf(lines[i], "%*s %*d %d", &n0);
+						flush_deferred();
+						if (n0 > 0 && n0 <= MAXDEFER) { g_defer_ses = sid0; g_defer_take = n0; g_ndefer = 0; }
+						continue;
+					}
+					if (g_defer_ses >= 0 && g_ndefer < g_defer_take) { g_defer[g_ndefer++] = strdup(lines[i]); continue; }
+					if (g_defer_ses >= 0 && (sid0 != g_defer_ses || !strcmp(op0, "release") || !strcmp(op0, "srand"))) flush_deferred();
 				}
 				char *dup = strdup(lines[i]);
 				run_line(dup);
